@@ -10,6 +10,9 @@
 (*   MCPoll(p)    a drive's next poll begins                                 *)
 (*   MCUnpark(p)  a parked task is resumed after its waker was invoked       *)
 (*   MCOp(p)      one scheduling point of the channel / ring code            *)
+(*   MCSlept(p)   a sleep of one of close's polling loops is over: the thread *)
+(*                goes on once another thread has taken a step since, or     *)
+(*                when nobody else can run (the timer fires)                 *)
 (*   MCRet(p)     return of a channel operation (same step as its last point)*)
 (***************************************************************************)
 EXTENDS UniChan
@@ -17,50 +20,57 @@ EXTENDS UniChan
 CONSTANT Script
 VARIABLES opi,     \* per thread: index of the next scripted operation
           tpc,     \* per thread: "" (not driving) | "ready" | "polling" | "parked"
-          tgot     \* per thread: items the current drive has received
+          tgot,    \* per thread: items the current drive has received
+          slept    \* per thread: asleep in a polling loop, and nobody else has taken a step since
 
-mcvars == <<uvars, opi, tpc, tgot>>
+mcvars == <<uvars, opi, tpc, tgot, slept>>
 
 S(v) == [op |-> "send", v |-> v, s |-> 0, max |-> 0]
 Dv(s, m) == [op |-> "drive", v |-> 0, s |-> s, max |-> m]
 X == [op |-> "cancel", v |-> 0, s |-> 0, max |-> 0]
+Cl == [op |-> "close", v |-> 0, s |-> 0, max |-> 0]
+Dr(s) == [op |-> "drop", v |-> 0, s |-> s, max |-> 0]
 
 Script_1p1c == << <<S(11), S(12)>>, <<Dv(0, 2)>> >>
 Script_2p1c == << <<S(11)>>, <<S(21)>>, <<Dv(0, 2)>> >>
 Script_1p1c3 == << <<S(11), S(12), S(13)>>, <<Dv(0, 3)>> >>
 Script_cancel == << <<S(11)>>, <<X>>, <<Dv(0, 9)>> >>
 Script_2s == << <<S(11), S(12)>>, <<Dv(0, 9)>>, <<Dv(1, 9)>>, <<X>> >>
+Script_close == << <<S(11)>>, <<Cl>>, <<Dv(0, 9), Dr(0)>> >>
+Script_close_s2 == << <<S(11), S(12)>>, <<Cl>>, <<Dv(0, 9), Dr(0)>>, <<Dv(1, 9), Dr(1)>> >>
 
-MCInit == UInit /\ opi = [p \in Procs |-> 1] /\ tpc = [p \in Procs |-> ""] /\ tgot = [p \in Procs |-> 0]
+MCInit == UInit /\ opi = [p \in Procs |-> 1] /\ tpc = [p \in Procs |-> ""] /\ tgot = [p \in Procs |-> 0] /\ slept = [p \in Procs |-> FALSE]
 
 CurOp(p) == Script[p + 1][opi[p]]
 HasOp(p) == opi[p] <= Len(Script[p + 1])
 
 \* start of a scripted operation
-MCCall(p) ==
+MCCall0(p) ==
     /\ HasOp(p) /\ cpc[p] = "idle" /\ tpc[p] = ""
     /\ LET o == CurOp(p) IN
        IF o.op = "send" THEN /\ CallSend(p, o.v) /\ opi' = [opi EXCEPT ![p] = @ + 1] /\ UNCHANGED <<tpc, tgot>>
        ELSE IF o.op = "cancel" THEN /\ CallCancel(p) /\ opi' = [opi EXCEPT ![p] = @ + 1] /\ UNCHANGED <<tpc, tgot>>
+       ELSE IF o.op = "close" THEN /\ CallClose(p) /\ opi' = [opi EXCEPT ![p] = @ + 1] /\ UNCHANGED <<tpc, tgot>>
+       ELSE IF o.op = "drop" THEN /\ CallDrop(p, o.s) /\ opi' = [opi EXCEPT ![p] = @ + 1] /\ UNCHANGED <<tpc, tgot>>
        ELSE \* drive: the task clears its notification and is about to poll
             /\ notified' = [notified EXCEPT ![o.s] = FALSE]
             /\ tpc' = [tpc EXCEPT ![p] = "ready"] /\ tgot' = [tgot EXCEPT ![p] = 0]
-            /\ UNCHANGED <<vars, cpc, cs, cres, waker, wlock, keep, stats, opi>>
+            /\ UNCHANGED <<vars, cpc, cs, cres, waker, wlock, keep, stats, smv, opi>>
 
-MCPoll(p) == /\ tpc[p] = "ready" /\ cpc[p] = "idle"
+MCPoll0(p) == /\ tpc[p] = "ready" /\ cpc[p] = "idle"
              /\ CallPoll(p, CurOp(p).s)
              /\ tpc' = [tpc EXCEPT ![p] = "polling"]
              /\ UNCHANGED <<opi, tgot>>
 
-MCUnpark(p) == /\ tpc[p] = "parked" /\ notified[CurOp(p).s]
+MCUnpark0(p) == /\ tpc[p] = "parked" /\ notified[CurOp(p).s]
                /\ notified' = [notified EXCEPT ![CurOp(p).s] = FALSE]
                /\ tpc' = [tpc EXCEPT ![p] = "ready"]
-               /\ UNCHANGED <<vars, cpc, cs, cres, waker, wlock, keep, stats, opi, tgot>>
+               /\ UNCHANGED <<vars, cpc, cs, cres, waker, wlock, keep, stats, smv, opi, tgot>>
 
-MCOp(p) == ChanStep(p) /\ UNCHANGED <<opi, tpc, tgot>>
+MCOp0(p) == ChanStep(p) /\ UNCHANGED <<opi, tpc, tgot>>
 
 \* return; for a drive: decide how the task goes on (the notification is cleared right before the next poll is started)
-MCRet(p) ==
+MCRet0(p) ==
     /\ cpc[p] = "cret"
     /\ IF tpc[p] # "polling"
        THEN ChanRet(p) /\ UNCHANGED <<opi, tpc, tgot>>
@@ -68,7 +78,7 @@ MCRet(p) ==
             /\ cpc' = [cpc EXCEPT ![p] = "idle"]
             /\ (IF pc[p] = "ret" THEN Ret(p) ELSE UNCHANGED vars)
             /\ stats' = [stats EXCEPT !.del = IF cres[p] = "item" THEN @ + 1 ELSE @]
-            /\ UNCHANGED <<cs, cres, waker, wlock, keep>>
+            /\ UNCHANGED <<cs, cres, waker, wlock, keep, smv>>
             /\ IF cres[p] = "item"
                THEN IF tgot[p] + 1 < o.max
                     THEN /\ tgot' = [tgot EXCEPT ![p] = @ + 1] /\ tpc' = [tpc EXCEPT ![p] = "ready"]
@@ -80,15 +90,29 @@ MCRet(p) ==
                ELSE \* end of stream
                     tpc' = [tpc EXCEPT ![p] = ""] /\ opi' = [opi EXCEPT ![p] = @ + 1] /\ UNCHANGED <<tgot, notified>>
 
-MCNext == \E p \in Procs : MCCall(p) \/ MCPoll(p) \/ MCUnpark(p) \/ MCOp(p) \/ MCRet(p)
+\* asleep in a polling loop: whoever takes a scheduler step ends everybody else's "nobody has moved since I fell asleep"
+Sleeping(p) == cpc[p] \in {"Z1", "Z2"}
+SleptAfter(p) == slept' = [q \in Procs |-> IF q = p THEN cpc'[p] \in {"Z1", "Z2"} ELSE FALSE]
+MCCall(p)   == MCCall0(p) /\ SleptAfter(p)
+MCPoll(p)   == MCPoll0(p) /\ SleptAfter(p)
+MCUnpark(p) == MCUnpark0(p) /\ SleptAfter(p)
+MCOp(p)     == MCOp0(p) /\ SleptAfter(p)
+MCRet(p)    == MCRet0(p) /\ UNCHANGED slept       \* not a scheduler step: it happens within the thread's last step
+MCSchedStep(p) == MCCall(p) \/ MCPoll(p) \/ MCUnpark(p) \/ MCOp(p)
+OthersCanRun(p) == \E q \in Procs \ {p} : ENABLED MCSchedStep(q)
+\* the sleep is over once another thread has taken a step since, or when nobody else can run (the timer fires)
+MCSlept(p) == /\ Sleeping(p) /\ (~slept[p] \/ ~OthersCanRun(p))
+              /\ CloseSlept(p) /\ UNCHANGED <<opi, tpc, tgot>> /\ SleptAfter(p)
+
+MCNext == \E p \in Procs : MCCall(p) \/ MCPoll(p) \/ MCUnpark(p) \/ MCOp(p) \/ MCSlept(p) \/ MCRet(p)
 
 -----------------------------------------------------------------------------
-Producing(p) == HasOp(p) /\ CurOp(p).op \in {"send", "cancel"}
+Producing(p) == HasOp(p) /\ CurOp(p).op \in {"send", "cancel", "close", "drop"}
 Driving(p) == HasOp(p) /\ CurOp(p).op = "drive"
 ProducersDone == \A p \in Procs : ~Producing(p) /\ (~Driving(p) => cpc[p] = "idle")
 Asleep(p) == Driving(p) /\ tpc[p] = "parked" /\ ~notified[CurOp(p).s]
 Quiescent == ProducersDone /\ \A p \in Procs : Driving(p) => Asleep(p)
-Cancelled == \E p \in Procs : \E i \in 1..Len(Script[p + 1]) : Script[p + 1][i].op = "cancel" /\ i < opi[p]
+Cancelled == \E p \in Procs : \E i \in 1..Len(Script[p + 1]) : Script[p + 1][i].op \in {"cancel", "close"} /\ i < opi[p]
 
 \* C01: at quiescence everything accepted was delivered or is still queued; never more delivered than accepted
 InvNoLoss == Quiescent => stats.del + Queued = stats.acc
@@ -96,4 +120,9 @@ InvNoLoss == Quiescent => stats.del + Queued = stats.acc
 InvNoLostWakeup == (Quiescent /\ ~Cancelled) => (Queued = 0 \/ \A p \in Procs : ~Asleep(p))
 \* C07: after cancel_all_streams completed no task is left asleep
 InvCancelEnds == (Quiescent /\ Cancelled) => \A p \in Procs : ~Asleep(p)
+\* C06: when close has returned every event accepted before it was called has been yielded, no stream is left, the channel is not open
+InvCloseWaits == \A p \in Procs : cres[p] = "closed" => (stats.del >= cx[p].accAt /\ cx[p].left = 0 /\ cx[p].run = 0)
+InvClosedAfterwards == \A p \in Procs : cres[p] = "closed" => ~cx[p].open
+\* ... and nothing accepted before the call is left in the ring (the streams are gone: nobody would ever yield it)
+InvCloseLeavesNothing == \A p \in Procs : cres[p] = "closed" => stats.acc - stats.del <= stats.acc - cx[p].accAt
 =============================================================================
